@@ -849,6 +849,7 @@ class ChainContextSubstBuilder(ChainContextualBuilder):
     def find_chainable_ligature_subst(self, glyphs, replacement):
         """Helper for add_ligature_subst_chained_()"""
         res = None
+        seqs = list(itertools.product(*glyphs))
         for rule in self.rules[::-1]:
             if rule.is_subtable_break:
                 return res
@@ -856,8 +857,13 @@ class ChainContextSubstBuilder(ChainContextualBuilder):
                 if not isinstance(sub, LigatureSubstBuilder):
                     continue
                 if all(
-                    sub.ligatures.get(seq, replacement) == replacement
-                    for seq in itertools.product(*glyphs)
+                    sub.ligatures.get(seq, replacement) == replacement for seq in seqs
+                ) and not any(
+                    # a sequence that extends another one would also be applied
+                    # (beyond the marked glyphs) by the rule of the shorter one
+                    len(old) != len(seq) and old[: len(seq)] == seq[: len(old)]
+                    for old in sub.ligatures
+                    for seq in seqs
                 ):
                     res = sub
         return res
